@@ -211,6 +211,42 @@ def faceModifyParams (E : Env α) (depth : Depth) (fg bg ul : Nat × Nat × Nat)
 
 end generic
 
+/-! ## the true-colour probe of `capabilities_detect` (src/unix.rs)
+
+The library sets the background to `probeColour` with `ESC[00;48;2;1;2;3m`, asks the terminal for its rendition
+(DECRQSS) and selects `TrueColor` iff the report decodes to exactly that colour.  A 256-colour terminal that
+maps direct colours to its palette reports `48;5;N`, which the decoder turns into the colour of entry `N`
+(`decoderPaletteRgb`).  Invariant the probe relies on (`SurfProofs.C20.C20_probe_not_palette`): the probe colour
+is the colour of no palette entry. -/
+
+/-- `face_expected = "bg=#010203"` (inline literal of the source, mirrored by hand; the harness compares it
+with the bytes the terminal object really sends) -/
+def probeColour : Nat × Nat × Nat := (1, 2, 3)
+
+open SurfModel.Generated in
+/-- `sgr_color`, branch `5`, of src/decoder.rs over the decoder's tables: colour of palette entry `index` -/
+def decoderPaletteRgb (index : Nat) : Option (Nat × Nat × Nat) :=
+  if index < 16 then ColorTables.decNamed[index]?
+  else if index < 232 then
+    let index := index - 16
+    let ri := index / 36
+    let index := index - ri * 36
+    let gi := index / 6
+    let index := index - gi * 6
+    let bi := index
+    match ColorTables.decCube[ri]?, ColorTables.decCube[gi]?, ColorTables.decCube[bi]? with
+    | some r, some g, some b => some (r, g, b)
+    | _, _, _ => none
+  else if index < 256 then
+    match ColorTables.decGreys[index - 232]? with
+    | some v => some (v, v, v)
+    | none => none
+  else none
+
+/-- first palette entry whose colour is `c`, if any (specification function used as an oracle through the driver) -/
+def paletteIndexOf (c : Nat × Nat × Nat) : Option Nat :=
+  (List.range 256).find? fun i => decoderPaletteRgb i == some c
+
 /-! ## execution over scaled integers -/
 
 open SurfModel.Generated in
@@ -278,6 +314,8 @@ def nonEmptyHex (cs : List Char) : String := if cs.isEmpty then "-" else String.
 * `face <depth> <r g b of fg> <r g b of bg> <luma fg> <luma bg>` → parameters of the `Face` command
 * `fmod <depth> <fg r g b> <bg r g b> <underline r g b> <luma fg> <luma bg> <luma ul> <0|1>` → parameters of a
   `FaceModify` setting the three colours (and a straight underline if `1`)
+* `probe <r> <g> <b>` → `probe` iff this is the model's true-colour probe colour; `probe-in-palette <r> <g> <b>` →
+  `outside` or `entry N` (the decoder's palette)
 * `idx8 <hex of r g b triples>` → hex of the palette indices
 * `row8 <r> <g> <b values to skip, hex>` → hex of the palette indices of `(r, g, b)` for every other `b`
 * `graylv <l0,l1,…>` → one digit per luma: the index chosen among the four levels
@@ -304,6 +342,16 @@ def handle : List String → String
     | some d, some [r, g, b, r', g', b', r'', g'', b''], some lf, some lb, some lu =>
       showParams (faceModifyParams envInt d (r, g, b) (r', g', b') (r'', g'', b'') lf lb lu (st == "1"))
     | _, _, _, _, _ => "bad-op"
+  | ["probe", r, g, b] =>
+    match r.toNat?, g.toNat?, b.toNat? with
+    | some r, some g, some b => if (r, g, b) == probeColour then "probe" else "other"
+    | _, _, _ => "bad-op"
+  | ["probe-in-palette", r, g, b] =>
+    match r.toNat?, g.toNat?, b.toNat? with
+    | some r, some g, some b => match paletteIndexOf (r, g, b) with
+      | none => "outside"
+      | some i => s!"entry {i}"
+    | _, _, _ => "bad-op"
   | ["idx8", h] =>
     match unhex h with
     | some bs => nonEmptyHex (idxTriples bs [])
